@@ -281,6 +281,11 @@ async def process_resource_causes(
         event_logger=event_logger,
     )
 
+    # Reset the idling of timers as soon as the essential change is detected --- before any handlers
+    # run: the low-level on-event handlers can take time, and the timers must not fire meanwhile.
+    if spawning_cause is not None and spawning_cause.reset:
+        memory.daemons_memory.idle_reset_time = asyncio.get_running_loop().time()
+
     # Invoke all the handlers that should or could be invoked at this processing cycle.
     # The low-level spies go ASAP always. However, the daemons are spawned before the high-level
     # handlers and killed after them: the daemons should live throughout the full object lifecycle.
